@@ -12,17 +12,17 @@ namespace PikaVerif
 abbrev Tid := Nat
 
 /-- Pointwise update of a per-thread map. -/
-def upd {α : Type} (f : Tid → α) (t : Tid) (v : α) : Tid → α :=
+def upd {α : Type} (f : Nat → α) (t : Nat) (v : α) : Nat → α :=
   fun u => if u = t then v else f u
 
-@[simp] theorem upd_same {α : Type} (f : Tid → α) (t : Tid) (v : α) : upd f t v t = v := by
+@[simp] theorem upd_same {α : Type} (f : Nat → α) (t : Nat) (v : α) : upd f t v t = v := by
   simp [upd]
 
-@[simp] theorem upd_other {α : Type} (f : Tid → α) (t u : Tid) (v : α) (h : u ≠ t) :
+@[simp] theorem upd_other {α : Type} (f : Nat → α) (t u : Nat) (v : α) (h : u ≠ t) :
     upd f t v u = f u := by
   simp [upd, h]
 
-theorem upd_apply {α : Type} (f : Tid → α) (t u : Tid) (v : α) :
+theorem upd_apply {α : Type} (f : Nat → α) (t u : Nat) (v : α) :
     upd f t v u = if u = t then v else f u := rfl
 
 /-- Run an acceptor over a log; `none` = some event was rejected. -/
